@@ -52,6 +52,9 @@ class Check:
         return util.Rng(self.seed, self.pid, *key)
 
     def flex(self, variant="san"):
+        # tools/coverage.sh re-runs the checks with an instrumented (gcov) flex to measure
+        # which parts of the generator the workloads reach; verdicts of such runs are not used
+        variant = os.environ.get("VERIF_FLEX_VARIANT") or variant
         f = self._flex.get(variant)
         if f is None:
             try:
